@@ -27,7 +27,9 @@ Definition model_obs (i : input) : obs :=
   match i with
   | IFold t coll s => OFold (fold s) (parse (so_of t coll) false (fold s))
   | IM1 t coll p s => OM1 (fold p) (match1 (phantom_of t coll) (parse (so_of t coll) false (fold p)) (map (so_of t coll) s))
-  | IAcc t ops qs => let rules := apply_ops t ops [] in OAcc (map (access_match t rules) qs) rules
+  | IAcc t ops qs =>
+    (* decisions through the trie (MatchNode.Add / Remove / Match); the reported rows are Access.rows *)
+    OAcc (map (trie_access_match t (trie_apply t ops root0)) qs) (apply_ops t ops [])
   | INs t ops qs => let rules := ns_apply_ops t ops [] in ONs (map (can_create t rules) qs) rules
   end.
 
